@@ -48,6 +48,10 @@ def cases(tier, seed):
         # depth 6 at 0.2 deg pixels: about twenty image pixels share one cell of the region (coarser than the pixel grid)
         for depth in (([6, 9] if sc == 1.0 else [6, 8, 10]) if tier == "quick" else ([5, 6, 7, 9] if sc == 1.0 else [5, 6, 7, 8, 10, 11])):
             yield "image", dict(shape=sh, proj=pj, crpix=cp, scale=sc, region=rk, depth=depth)
+            if cp == "centre" and rk in ("circle", "spread") and depth in (8, 9):
+                # the reference point is a celestial pole and sits exactly on a pixel centre inside the region
+                for pole in (90.0, -90.0):
+                    yield "image", dict(shape=sh, proj=pj, crpix="pole", scale=sc, region=rk, depth=depth, pole=pole)
             if pj == "SIN" and cp == "centre":
                 # the same field described by a header with a NEGATIVE reference longitude (CRVAL1 = -2 = 358 deg)
                 yield "image", dict(shape=sh, proj=pj, crpix=cp, scale=sc, region=rk, depth=depth, ra0=-2.0)
@@ -114,7 +118,11 @@ def ev_image(case, ctx):
     rows, cols = shape
     sc = case["scale"]
     crpix = None if case["crpix"] == "centre" else (cols + 30.5, -12.25)
-    hdr = wz.make_header(case["proj"], (case.get("ra0", 150.0) + core.seed_shift(ctx.seed, 10, 30 if "ra0" not in case else 1.0), -35.0), sc, shape, crpix=crpix)
+    if case["crpix"] == "pole":
+        crpix = (float(int(cols * 0.35) + 1), float(int(rows * 0.6) + 1))
+    hdr = wz.make_header(case["proj"], (case.get("ra0", 150.0) + core.seed_shift(ctx.seed, 10, 30 if "ra0" not in case else 1.0), case.get("pole", -35.0)), sc, shape, crpix=crpix)
+    if "pole" in case:
+        hdr["LONPOLE"] = 180.0
     fhdr = wz.to_fits_header(hdr)
     wcs = WCS(fhdr, naxis=2)
     probe = wz.pix2sky(hdr, np.array([cols * 0.35, cols * 0.8, cols * 0.35 + 1]), np.array([rows * 0.6, rows * 0.2, rows * 0.6]))
@@ -128,6 +136,8 @@ def ev_image(case, ctx):
     tag = "%dx%d,%s,crpix=%s,scale=%g,%s,depth=%d" % (rows, cols, case["proj"], case["crpix"], sc, case["region"], case["depth"])
     if "ra0" in case:
         tag += ",crval1=%g" % case["ra0"]
+    if "pole" in case:
+        tag += ",crval2=%g" % case["pole"]
     ctx.count("ambiguous_pixels_skipped", int(np.sum(amb)))
     if np.any(inside & ok) and np.any(~inside & ok):
         ctx.nontrivial(tag)
@@ -266,6 +276,26 @@ def ev_table(case, ctx):
             if got != exp:
                 ctx.violation("rows with an undefined coordinate were treated as inside a region around %s: kept %r, expected %r (%s)" % (
                     rname, got, exp, sig2), "table_undefined|" + sig2)
+    # rows exactly AT a celestial pole, region = polar cap: such a row is an ordinary position
+    for pole, negate in itertools.product((90.0, -90.0), (False, True)):
+        cap = Region(maxdepth=depth)
+        cap.add_circles(np.radians(200.0), np.radians(pole), np.radians(2.0))
+        t = Table()
+        t["ra"] = np.array([0.0, 133.0, 359.5, ra0])
+        t["dec"] = np.array([pole, pole, pole, -pole * 0.5])
+        t["tag"] = np.array(["pole_ra0", "pole_ra133", "pole_ra359", "far"], dtype="U12")
+        ctx.count("mask_table_pole")
+        sigp = "pole_rows:dec=%g,negate=%s" % (pole, negate)
+        ctx.nontrivial(sigp)
+        import copy as _copy2
+        try:
+            got = [str(x) for x in MIMAS.mask_table(_copy2.deepcopy(cap), t.copy(), negate=negate)["tag"]]
+        except Exception as e:
+            ctx.violation("mask_table raised %r (%s)" % (e, sigp), "table_raise|" + sigp)
+            continue
+        exp = ["pole_ra0", "pole_ra133", "pole_ra359"] if negate else ["far"]
+        if got != exp:
+            ctx.violation("rows exactly at dec = %g with a polar-cap region: kept %r, expected %r (%s)" % (pole, got, exp, sigp), "table_pole|" + sigp)
     for (rac, decc), negate, distract in itertools.product([("ra", "dec"), ("RAJ2000", "DEJ2000")], [False, True], [False, True]):
         t = Table()
         t[rac] = np.array([coords[n][0] for n in names], dtype=float)
